@@ -94,7 +94,7 @@ def run(ck, prog, tier, load):
     sr = disp(prog, "send_response")
     se = disp(prog, "send_error_response")
     ea, eb = effects(sr), effects(se)
-    ck.anchor("C03-a", min(len(ea), len(eb)), 6, "guarded effects in send_response / send_error_response")
+    ck.anchor("C03-a", min(len(ea), len(eb)), 3, "guarded effects in send_response / send_error_response")
     oa, ob = diff_effects(ea, eb)
     ck.ob("C03-a.senders-agree", "send_response~send_error_response", not oa and not ob, sr, None,
           "both senders perform the same guarded effects (%d). only in send_response: %s; only in send_error_response: %s" % (len(ea), oa[:3], ob[:3]))
@@ -113,7 +113,7 @@ def run(ck, prog, tier, load):
             regs[lab] = {b for b in presp.live if presp.dominates(tb, b)}
         ea = effects(presp, regs["SendPayload"])
         eb = effects(presp, regs["SendErrorPayload"])
-        ck.anchor("C03-a", min(len(ea), len(eb)), 6, "guarded effects in the two send-body arms")
+        ck.anchor("C03-a", min(len(ea), len(eb)), 3, "guarded effects in the two send-body arms")
         oa, ob = diff_effects(ea, eb)
         ck.ob("C03-a.body-arms-agree", "SendPayload~SendErrorPayload", not oa and not ob, presp, arms["SendPayload"][1],
               "both send-body arms perform the same guarded effects (%d). only in SendPayload: %s; only in SendErrorPayload: %s" % (len(ea), oa[:3], ob[:3]))
@@ -142,7 +142,7 @@ def run(ck, prog, tier, load):
             if not e_has_field(recv, r"HttpFlow\.(service|expect)$"):
                 continue
             n_d += 1
-    ck.anchor("C03-b", n_d, 4, "Service::call dispatch sites on flow.service / flow.expect")
+    ck.anchor("C03-b", n_d, 2, "Service::call dispatch sites on flow.service / flow.expect")
     # dispatch path 1: queued message popped in poll_response
     pops = [bb for (bd, bb, t, m) in method_calls_on_field(prog, DF + "messages$", bodies=[presp]) if m == "pop_front"]
     ck.anchor("C03-b", len(pops), 1, "messages.pop_front() in poll_response")
@@ -249,7 +249,7 @@ def run(ck, prog, tier, load):
     # the server codec installs a body decoder for every request that has a body, whatever else it remembers about it
     cdec = prog.one(r"^<actix_http::h1::codec::Codec as tokio_util::codec::decoder::Decoder>::decode$")
     pws = [(bb, cdec.rv_expr(s_["rv"], 4)) for bb, i, s_ in cdec.assigns() if any(isinstance(x, str) and x.endswith("codec::Codec.payload") for x in s_["p"][1:])]
-    ck.anchor("C03-c", len(pws), 3, "writes of Codec.payload in Codec::decode")
+    ck.anchor("C03-c", len(pws), 2, "writes of Codec.payload in Codec::decode")
     rets_item = [bb for bb, e in cdec.ret_exprs() if agg_chain(e)[0][:2] == ["core::result::Result::Ok", "core::option::Option::Some"]]
     for variant in ("Payload", "Stream"):
         edges = edges_where(cdec, lambda c, lab: c[0] == "discr" and (c[2] or "").endswith("PayloadType") and lab == variant)
@@ -267,7 +267,7 @@ def run(ck, prog, tier, load):
     for (b, bb, t, m) in method_calls_on_field(prog, DF + "messages$", ["actix_http"]):
         if m == "push_back" and any(is_agg(x, r"DispatcherMessage::Error$") for x in walk(b.op_expr(t["args"][1]))):
             pushes.append((b, bb))
-    ck.anchor("C03-d", len(pushes), 4, "messages.push_back(DispatcherMessage::Error(_))")
+    ck.anchor("C03-d", len(pushes), 2, "messages.push_back(DispatcherMessage::Error(_))")
     decs = [bb for bb, t in preq.calls(r"^<actix_http::h1::codec::Codec as tokio_util::codec::decoder::Decoder>::decode$")]
     for i, (b, bb) in enumerate(pushes):
         rd = [x for x, op, fl, t in flag_ops(b) if op == "insert" and "READ_DISCONNECT" in fl]
